@@ -23,7 +23,7 @@ MGR = "quantarhei/core/managers.py::"
 TYP = "quantarhei/utils/types.py::"
 
 META = dict(
-    category="proof",
+    category="other",   # proofs, with one open known finding (a clause that is false on this tree)
     text=("The unit switches (get/set/unset_current_units), both conversion directions for energy, frequency and "
           "length (scalar path and the array path with the reciprocal nm handling) and the getter/setter closures of "
           "the units-managed property factories are proved against contracts for every supported unit (symbolic unit "
